@@ -10,7 +10,7 @@ VARIABLES l, hdr, pre, prior, planned, injected, crashed, msgs, retv, created, l
 tvars == <<l, hdr, pre, prior, planned, injected, crashed, msgs, retv, created, logged, nalloc, natural, lamb>>
 
 OpKind == hdr.scenario.op.kind
-Where == OpKind \o "/" \o (IF crashed # "none" THEN "crash@" \o crashed ELSE IF injected # "none" THEN "fault@" \o injected ELSE "fault-free")
+Where == (IF Has(hdr, "store") /\ hdr.store = "redis" THEN "redis-store/" ELSE "") \o OpKind \o "/" \o (IF crashed # "none" THEN "crash@" \o crashed ELSE IF injected # "none" THEN "fault@" \o injected ELSE "fault-free")
 Get(f, k, d) == IF k \in DOMAIN f THEN f[k] ELSE d
 PriorOf(n) == LET R == {i \in 1..Len(prior) : prior[i].node = n} IN IF R = {} THEN 0 ELSE prior[CHOOSE i \in R : TRUE].ds
 
@@ -115,20 +115,23 @@ TraceNext ==
               /\ (IF Has(e, "obs") /\ ~e.obserr THEN Report(ObsOK(e, planned'), "C13", l, "count-out-of-bounds-during-deployment/" \o e.target \o "." \o e.method \o "/" \o Where) ELSE TRUE)
               /\ (IF e.target = "lock" /\ e.class # "injected" /\ Has(e, "cls") THEN Report(LockOrderOK(e), "C20", l, "lock-out-of-order/" \o OpKind) ELSE TRUE)
               \* a call that failed by itself before the injected one: the run has two failures, outside "single failure"
-              /\ natural' = (IF e.class = "err" /\ injected = "none" /\ e.target \in {"store", "plugin", "engine", "wal"} /\ natural = "none"
+              \* "envfail": the embedded store itself failed (timed out under load): the run is outside the failure model
+              /\ natural' = (IF e.class = "envfail" THEN "ENV"
+                              ELSE IF e.class = "err" /\ injected = "none" /\ e.target \in {"store", "plugin", "engine", "wal"} /\ natural = "none"
                               THEN e.target \o "." \o e.method ELSE natural)
-              /\ UNCHANGED <<hdr, pre, prior, crashed, msgs, retv, created>>
-         [] e.ev = "EngineCreated" -> created' = created + 1 /\ UNCHANGED <<hdr, pre, prior, planned, injected, crashed, msgs, retv, logged, nalloc, natural, lamb>>
+              /\ created' = (IF e.target = "engine" /\ e.method = "Create" /\ e.class = "ok" THEN created + 1 ELSE created)
+              /\ UNCHANGED <<hdr, pre, prior, crashed, msgs, retv>>
          [] e.ev = "Crash" -> crashed' = e.target \o "." \o e.method /\ UNCHANGED <<hdr, pre, prior, planned, injected, msgs, retv, created, logged, nalloc, natural, lamb>>
          [] e.ev = "Msg" -> msgs' = Append(msgs, e) /\ UNCHANGED <<hdr, pre, prior, planned, injected, crashed, retv, created, logged, nalloc, natural, lamb>>
          [] e.ev = "Return" -> retv' = e /\ UNCHANGED <<hdr, pre, prior, planned, injected, crashed, msgs, created, logged, nalloc, natural, lamb>>
          [] e.ev = "Snap" /\ e.when = "post" ->
-              /\ (IF injected # "none" /\ natural # "none" THEN TRUE ELSE StateChecks(e, "after"))
-              /\ (IF crashed # "none"
+              /\ (IF (injected # "none" /\ natural # "none") \/ natural = "ENV" THEN TRUE ELSE StateChecks(e, "after"))
+              /\ (IF crashed # "none" /\ natural = "ENV" THEN TRUE
+                  ELSE IF crashed # "none"
                   THEN /\ Report(RecoveredOK(e), "C14", l, WhyRecovered(e) \o "/" \o Where)
                        /\ Report(UsageIsSum(e), "C14", l, "usage-differs-from-workload-sum-after-recovery/" \o Where)
                        /\ Report(NoMarkers(e), "C14", l, "marker-left-after-recovery/" \o Where)
-                  ELSE IF retv = <<>> \/ (injected # "none" /\ natural # "none") THEN TRUE
+                  ELSE IF retv = <<>> \/ (injected # "none" /\ natural # "none") \/ natural = "ENV" THEN TRUE
                   ELSE /\ Report(retv.class # "hang", "C12", l, "operation-never-returned/" \o Where)
                        /\ (IF OpKind = "create" THEN Report(CreateTruthful(e, retv), "C12", l, WhyCreate(e, retv) \o "/" \o Where) ELSE TRUE)
                        /\ (IF OpKind = "create" /\ injected # "store.DeleteProcessing"   \* the injected failure is the clean-up call itself: nothing to judge
